@@ -33,8 +33,11 @@ Section Reference.
   Variable dt : bytes -> option bytes.
 
   (** the field selections of the request as the walk can meet them *)
+  (** the field selections the walk can meet: those of the nodes REACHED from the chosen operation
+      (its body, the definitions of the fragments spread inside reached nodes) — not the fragments
+      only other operations use *)
   Definition in_request (o : aop C) (frs : list (bytes * anode C)) (f : afield C) : Prop :=
-    field_in C (ao_body o) f \/ exists p, In p frs /\ field_in C (snd p) f.
+    exists m, reached C frs (ao_body o) m /\ field_in C m f.
 
   Theorem trace_calls_reference skip_zero fuel dc ctx0 ops frs opname raw max o :
     chosen_op C ops opname = Some o ->
